@@ -21,7 +21,7 @@ PROPERTY = 'C13'
 FUNCTIONS = ['dassh.pin_model:PinModel.__init__', 'dassh.pin_model:PinModel.calculate_temperatures',
              'dassh.pin_model:PinModel.calc_clad_temps', 'dassh.pin_model:PinModel.calc_fuel_surf_temp',
              'dassh.pin_model:PinModel.calc_fuel_temps', 'dassh.pin_model:PinModel._fuel_cond',
-             'dassh.region_rodded:RoddedRegion.calculate_pin_temperatures']
+             'dassh.region_rodded:RoddedRegion.calculate_pin_temperatures', 'dassh.pin_model:PinModel.__init__ (emissivity)']
 ASSUMPTIONS = ['conductivities of clad, gap and fuel are positive functions of temperature (assumed contract of Material / '
                'MetallicFuel); with temperature-dependent conductivities each loop is verified as ONE arbitrary iteration '
                '(cut from the source): at loop exit the reported temperature and the previous iterate differ by <= atol, so '
@@ -33,7 +33,10 @@ BOUNDED = []
 SB = 5.670367e-8
 
 
-def _pin(S, gap=False, tdep=False, annular=False, n_zone=2):
+_OMIT = object()
+
+
+def _pin(S, gap=False, tdep=False, annular=False, n_zone=2, emissivity=_OMIT):
     from dassh import pin_model
     d = S.pos('d_pin', 0.006, 0.008)
     g = S.pos('gap_thk', 0.00005, 0.0001) if gap else 0.0
@@ -46,6 +49,8 @@ def _pin(S, gap=False, tdep=False, annular=False, n_zone=2):
     r_frac = [0.25, 0.6][:n_zone] if annular else [0.0, 0.5][:n_zone]
     params = {'htc_params_clad': [0.023, 0.8, 0.8, 7.0], 'gap_thickness': g, 'r_frac': r_frac,
               'pin_material': fuels}
+    if emissivity is not _OMIT:
+        params['emissivity'] = emissivity
     pm = pin_model.PinModel(d, thk, clad, pin_params=params, gap_mat=gapm)
     pm._ri, pm._thk, pm._gap = ri, thk, g
     return pm
@@ -373,11 +378,56 @@ gap_start.cname = 'PinModel.calc_fuel_surf_temp/constants'
 gap_start.run_kw = dict(check_div=False)
 
 
+def init_params(S, cfg):
+    """PinModel.__init__: the emissivity the gap radiation uses is the one the user gave - ANY value, a non-radiating
+    gap (0) included - and the SE2ANL default 0.9 only when none is given; with emissivity 0 the second gap iterate is
+    pure conduction at the mean conductivity"""
+    from dassh import pin_model
+    how = cfg['emissivity']
+    if how == 'omitted':
+        pm = _pin(S, gap=True, tdep=True)
+        S.eq('init.emissivity_default', pm.fuel['e'], Fraction(9, 10) if S.mode == 'sym' else 0.9)
+        S.eq('canary.init_emissivity_default_is_one', pm.fuel['e'], 1.0, canary=True)
+        return
+    e = 0.0 if how == 'zero' else S.nonneg('emissivity', 0.0, 1.0)
+    pm = _pin(S, gap=True, tdep=True, emissivity=e)
+    S.eq('init.emissivity_is_the_given_one', pm.fuel['e'], e, scale=1.0)
+    S.eq('canary.init_emissivity_is_default', pm.fuel['e'], 0.9, canary=True)
+    if how != 'zero':
+        return
+    q = S.pos('q', 1.0, 400.0)
+    dz = S.pos('dz', 0.001, 0.02)
+    T_clad = S.pos('T_clad', 600.0, 1000.0)
+    pi = np.pi if S.mode != 'sym' else Sym(core.CTX.var('PI', kind='pos', lo=math.pi, hi=math.pi))
+    arr = (lambda x: np.array([x], dtype=object if S.mode == 'sym' else float))
+    real_np = pin_model.np
+    calls = []
+
+    class _OneLoop:
+        def __getattr__(self, k):
+            return getattr(real_np, k)
+
+        def max(self, *a, **k):
+            calls.append(1)
+            return 1.0 if len(calls) == 1 else 0.0
+    with patched((pin_model, 'np', _OneLoop())):
+        Tf2 = pm.calc_fuel_surf_temp(arr(q), dz, arr(T_clad), 1e-6)[0]
+    dr, rf = pm.gap['dr'], pm.fuel['r'][-1, 1]
+    Tf = T_clad + q / (2 * pi * dz * rf) * dr / pm.gap['k'](T_clad)
+    kbar = (pm.gap['k'](Tf) + pm.gap['k'](T_clad)) / 2
+    S.eq('init.no_radiation_at_zero_emissivity', kbar * (Tf2 - T_clad) / dr, q / (2 * pi * dz * rf))
+
+
+init_params.cname = 'PinModel.__init__/emissivity'
+init_params.run_kw = dict(check_div=False)
+
+
 def configs(tier):
     out = [(whole, dict(n_pin=1)), (whole, dict(n_pin=1, annular=True)), (clad_body, dict()), (gap_body, dict()),
            (fuel_body, dict()), (fuel_body, dict(annular=True)), (coolant_weights, dict(n_ring=2)),
            (coolant_weights, dict(n_ring=3)),
-           (loop_exit, dict(loop='clad')), (loop_exit, dict(loop='gap')), (loop_exit, dict(loop='fuel')), (chain, dict()), (gap_start, dict())]
+           (loop_exit, dict(loop='clad')), (loop_exit, dict(loop='gap')), (loop_exit, dict(loop='fuel')), (chain, dict()), (gap_start, dict()),
+           (init_params, dict(emissivity='omitted')), (init_params, dict(emissivity='zero')), (init_params, dict(emissivity='atom'))]
     if tier == 'thorough':
         out += [(whole, dict(n_pin=2)), (coolant_weights, dict(n_ring=4))]
     return out
